@@ -44,6 +44,14 @@ def check_trace(tr, outcome, apps=('vapp', 'wapp', 'xapp')):
                 if open_pair is not None:
                     problems.append('%s while %s is still open' % (name, open_pair[0]))
                 open_pair = (name, info)
+                if name == 'applying_evolution':
+                    # the evolutions a task announces are its own app's, each once
+                    labels = info.get('evolutions', [])
+                    if len(labels) != len(set(labels)):
+                        problems.append('applying_evolution of %s lists an evolution twice: %r' % (info.get('app'), labels))
+                    foreign = [a for a in info.get('evolution_apps', []) if a is not None and a != info.get('app')]
+                    if foreign:
+                        problems.append('applying_evolution of %s carries evolutions of %s' % (info.get('app'), sorted(set(foreign))))
             elif name in ('applied_evolution', 'created_models', 'applied_migration'):
                 want = {'applied_evolution': 'applying_evolution', 'created_models': 'creating_models',
                         'applied_migration': 'applying_migration'}[name]
@@ -94,6 +102,7 @@ def run(ctx):
     ctx.rule = ('runs of generated upgrades (1-3 mutations, optionally a new model) plus the baseline install and a '
                 'nothing-to-do run, each fault-free and with an injected failure at EVERY write-statement index; '
                 'non-trivial = the trace has at least one applying/creating pair; distinct by (case, k)')
+    shared_label_runs(ctx)
     migration_runs(ctx, quick)
     migration_app_runs(ctx)
     ncases = 9 if quick else 120
@@ -271,6 +280,46 @@ def migration_runs(ctx, quick):
 class _Shim(object):
     def __init__(self, events):
         self.events = [tuple(e) for e in events]
+
+
+def shared_label_runs(ctx):
+    """two apps whose pending evolutions carry the same labels, applied in one run (C04's two-app history, V0 -> V3
+    directly): fault-free and with a fault at every write"""
+    import random
+    from .. import dbrig
+    from . import c04
+    specs, evos = c04.two_app_history()
+
+    def start():
+        evorig.fresh_databases()
+        evorig.clear_evolutions()
+        c04.install(specs, evos, 0)
+        r = evorig.run_evolver()
+        dbrig.insert_rows(evorig.install_models(specs[0]), random.Random(5))
+        c04.install(specs, evos, 3)
+        return r[0] == 'ok'
+    if not start():
+        ctx.count('shared_labels:start_failed')
+        return
+    tr = evorig.Trace()
+    r = evorig.run_evolver(trace=tr)
+    ctx.count('shared_labels:run')
+    rep0 = {'scenario': 'two apps, same labels, one run'}
+    ctx.case(dict(rep0, fault=None, signals=[x[0] for x in tr.signals()]), nontrivial=True, sample_cap=2)
+    for p in check_trace(tr, r[0]) + saved_problems(tr):
+        ctx.fail(None, 'shared labels: %s' % p, dict(rep0, signals=tr.signals()))
+    n = len(tr.write_statements())
+    for k in range(n):
+        if ctx.time_left() < 20:
+            return
+        start()
+        trk = evorig.Trace(fail_at=k)
+        rk = evorig.run_evolver(trace=trk)
+        ctx.count('shared_labels:fault_runs')
+        ctx.case(dict(rep0, fault=k, signals=[x[0] for x in trk.signals()]), nontrivial=True, sample_cap=2)
+        for p in check_trace(trk, rk[0]) + saved_problems(trk):
+            ctx.fail(None, 'shared labels, fault at write #%d of %d: %s' % (k, n, p),
+                     dict(rep0, fault=k, signals=trk.signals(), failed_sql=trk.failed_sql))
 
 
 def migration_app_runs(ctx):
